@@ -59,6 +59,17 @@ Theorem C04_magic_lzip :
 Proof. exact C04_magic_lzip_thm. Qed.
 Print Assumptions C04_magic_lzip.
 
+(* KNOWN FINDING lzip-empty-input (known-findings.txt): the EMPTY input is accepted as an empty file
+   by LZIPReader, so an LZIP file truncated to zero bytes reads as success with no data (lzip(1) and
+   liblzma report an error).  It cannot be repaired without breaking the baseline test
+   tests/lzip_reference.rs, which decodes an empty .lz fixture in this tree.  C04_magic_lzip above
+   is the statement "for every input outside the known class (src <> []) the property holds"; this
+   is the witness that the known class is accepted. *)
+Theorem C04_lzip_empty_input_known :
+  forall (pdec : Z -> list Z -> outcome (list Z * list Z)), lz_decode pdec lz_fixed [] = Ok ([], []).
+Proof. exact lz_decode_empty_known. Qed.
+Print Assumptions C04_lzip_empty_input_known.
+
 (* F6: false on the code before the fix - text that is not LZIP decodes "successfully" to nothing *)
 Theorem C04_magic_lzip_refuted : exists rest, lz_decode_c lz_orig w_not_lzip = Ok ([], rest).
 Proof. exact lzip_garbage_refuted. Qed.
